@@ -232,42 +232,6 @@ def _node_models():
     return {}
 
 
-def _pop_targets(ctx, stmts, stack_hint=None):
-    """[(attr name)] in execution order for `X.attr = <stack>.pop()` in a straight-line block."""
-    out = []
-    pending = {}   # local name -> pop index
-    idx = 0
-    for s in stmts:
-        if not isinstance(s, ast.Assign) or len(s.targets) != 1:
-            if any(isinstance(c, ast.Call) and isinstance(c.func, ast.Attribute)
-                   and c.func.attr == 'pop' for c in ast.walk(s)):
-                raise Unmodelled(f'pop in unrecognised statement line {s.lineno}')
-            continue
-        t, v = s.targets[0], s.value
-        is_pop = isinstance(v, ast.Call) and isinstance(v.func, ast.Attribute) \
-            and v.func.attr == 'pop' and not v.args
-        if is_pop:
-            if isinstance(t, ast.Attribute):
-                out.append((idx, t.attr, s))
-            elif isinstance(t, ast.Name):
-                pending[t.id] = idx
-            else:
-                raise Unmodelled('pop stored into unrecognised target')
-            idx += 1
-        elif isinstance(v, ast.Name) and v.id in pending and isinstance(t, ast.Attribute):
-            out.append((pending[v.id], t.attr, s))
-    out.sort(key=lambda x: x[0])
-    return out
-
-
-class _Operand(PyModel):
-    def __init__(self, label):
-        self.label = label
-
-    def eval(self, context):
-        return f'value of {self.label}'
-
-
 def rule_3(ctx):
     """Operand order through build_ast and the node classes, end to end: the left operand of a written operator is the first
     argument of its function and the right operand the second, a prefix operator takes the operand that follows it, call arguments
@@ -294,16 +258,6 @@ def _table(ctx, modname, name):
     if not isinstance(val, dict):
         raise Unmodelled(f'{name} is not a dict literal')
     return m, node, val
-
-
-def _binop_of_return(ret, p0, p1):
-    """('bin'|'cmp', opclass, left_is_p0, right_is_p1) for `return p0 (op) p1`."""
-    v = ret.value
-    if isinstance(v, ast.BinOp):
-        return 'bin', type(v.op), v.left, v.right
-    if isinstance(v, ast.Compare) and len(v.ops) == 1:
-        return 'cmp', type(v.ops[0]), v.left, v.comparators[0]
-    return None
 
 
 def eval_formula(ctx, formula, cells, models=None):
@@ -384,199 +338,11 @@ def rule_4(ctx):
     ctx.floor(20, '12 infix + prefix/percent rows + 5 arithmetic special methods')
 
 
-def _check_power(ctx, fnode, params, construct):
-    ret = last_return(fnode)
-    ok = False
-    why = f'{fnode.name} does not return {params[0]} ** {params[1]}'
-    if ret is not None:
-        v = ret.value
-        if isinstance(v, ast.BinOp) and isinstance(v.op, ast.Pow):
-            ok = isinstance(v.left, ast.Name) and v.left.id == params[0] \
-                and isinstance(v.right, ast.Name) and v.right.id == params[1]
-        elif isinstance(v, ast.Call):
-            ref = ctx.res.resolve(v.func, fnode._module)
-            if ref in ('ext:numpy.power', 'ext:math.pow', 'builtin:pow') and len(v.args) == 2:
-                a0, a1 = names_in(v.args[0]), names_in(v.args[1])
-                ok = params[0] in a0 and params[1] not in a0 and params[1] in a1 and params[0] not in a1
-                why = f'{fnode.name} passes ({ast.unparse(v.args[0])}, {ast.unparse(v.args[1])}) to {ref}: base and exponent out of order'
-    ctx.expect(ok, fnode, construct, why)
-
-
-def _check_concat(ctx, fnode, params, construct):
-    # joins its items in argument order: a ''.join over an iteration of the var-positional
-    # parameter with no reordering call
-    deps = flow.Deps(fnode)
-    ret = last_return(fnode)
-    ok = False
-    why = 'CONCAT does not return a join of its arguments'
-    if ret is not None and isinstance(ret.value, ast.Call) and isinstance(ret.value.func, ast.Attribute) \
-            and ret.value.func.attr == 'join' and isinstance(ret.value.func.value, ast.Constant) \
-            and ret.value.func.value.value == '':
-        reach = deps.params_reaching(ret.value)
-        ok = bool(reach)
-        why = 'joined items do not derive from the arguments'
-    reorder = [c for c in flow.calls_in(fnode) if (isinstance(c.func, ast.Name) and c.func.id in ('sorted', 'reversed', 'set', 'frozenset'))
-               or (isinstance(c.func, ast.Attribute) and c.func.attr in ('sort', 'reverse'))]
-    rev_slice = [s for s in walk_local(fnode) if isinstance(s, ast.Subscript) and isinstance(s.slice, ast.Slice)
-                 and s.slice.step is not None]
-    if reorder or rev_slice:
-        ok = False
-        why = 'CONCAT reorders or de-duplicates its items'
-    ctx.expect(ok, fnode, construct, why)
-
-
-def _check_div_guard(ctx, fnode, ret, params):
-    """OP_DIV: a guard `divisor == 0 -> raise DivZeroExcelError` dominates the division."""
-    conds = flow.path_conditions(ret)
-    ok = False
-    for c in conds:
-        if c.kind == 'guard' and c.polarity is False and _is_zero_test(c.test, params[1]):
-            body = c.origin.body
-            for r in body:
-                if isinstance(r, ast.Raise) and raise_class(ctx, r) == XLERR + 'DivZeroExcelError':
-                    ok = True
-    ctx.expect(ok, fnode, 'OP_DIV zero guard',
-               'division is not dominated by `right == 0 -> raise DivZeroExcelError`')
-
-
-def _is_zero_test(test, name):
-    if isinstance(test, ast.Compare) and len(test.ops) == 1 and isinstance(test.ops[0], ast.Eq):
-        l, r = test.left, test.comparators[0]
-        for x, y in ((l, r), (r, l)):
-            if isinstance(x, ast.Name) and x.id == name and isinstance(y, ast.Constant) \
-                    and y.value == 0 and not isinstance(y.value, bool):
-                return True
-    return False
-
-
 DUNDER_OPS = {'__add__': ast.Add, '__sub__': ast.Sub, '__mul__': ast.Mult,
               '__truediv__': ast.Div, '__pow__': ast.Pow}
 
 
-def _check_dunders(ctx):
-    m = ctx.mod('xlfunctions.func_xltypes')
-    cls = m.cls('ExcelType')
-    for name, opcls in DUNDER_OPS.items():
-        fnode = m.funcs.get(f'ExcelType.{name}')
-        if fnode is None:
-            ctx.bad(cls, f'ExcelType.{name}', 'arithmetic dunder missing')
-            continue
-        params = func_params(fnode)
-        deps = flow.Deps(fnode)
-        arith = [n for n in walk_local(fnode) if isinstance(n, ast.BinOp)
-                 and type(n.op) in (ast.Add, ast.Sub, ast.Mult, ast.Div, ast.Pow, ast.Mod, ast.FloorDiv)]
-        ok = len(arith) == 1 and type(arith[0].op) is opcls
-        why = f'{name} applies {[type(a.op).__name__ for a in arith]} instead of exactly one {opcls.__name__}'
-        if ok:
-            lp = deps.params_reaching(arith[0].left)
-            rp = deps.params_reaching(arith[0].right)
-            ok = lp == {params[0]} and rp == {params[1]}
-            why = (f'{name}: left operand derives from {sorted(lp)}, right from {sorted(rp)}; '
-                   f'must be self (op) other')
-        ctx.expect(ok, fnode, f'ExcelType.{name}', why)
-        if name == '__truediv__' and arith:
-            # the zero guard must test the very value used as the divisor
-            div = arith[0]
-            guards = [c for c in flow.path_conditions(div) if c.kind == 'guard' and c.polarity is False]
-            good = False
-            for c in guards:
-                t = c.test
-                if isinstance(t, ast.Compare) and len(t.ops) == 1 and isinstance(t.ops[0], ast.Eq):
-                    sides = [t.left, t.comparators[0]]
-                    for x, y in (sides, sides[::-1]):
-                        if isinstance(y, ast.Constant) and y.value == 0 and ast.dump(x) == ast.dump(div.right):
-                            if any(isinstance(r, ast.Raise) and raise_class(ctx, r) == XLERR + 'DivZeroExcelError'
-                                   for r in c.origin.body):
-                                good = True
-            ctx.expect(good, fnode, 'ExcelType.__truediv__ zero guard',
-                       'the guard raising #DIV/0! does not test the converted value that is used as the divisor '
-                       f'(`{ast.unparse(div.right)}`)')
     # reflected aliases exist (recorded for C20.3; here only that the forward ones are aliased or defined)
-
-
-def _minus_plus_switch(ctx, sign):
-    tm = ctx.mod('tokenizer')
-    fn = tm.func('ExcelParser.getTokens')
-    ifs = [n for n in walk_local(fn) if isinstance(n, ast.If) and const_compares(n.test, 'tvalue', sign)
-           and any(isinstance(x, ast.Attribute) and x.attr == 'ttype' for x in ast.walk(n.test))]
-    if len(ifs) != 1:
-        raise AnchorMissing(f'tokenizer second pass: {len(ifs)} switches for {sign!r}')
-    return tm, fn, ifs[0]
-
-
-class _Tokens(PyModel):
-    def __init__(self, bof, prev):
-        self._bof = bof
-        self._prev = prev
-
-    def BOF(self):
-        return self._bof
-
-    def previous(self):
-        return self._prev
-
-    def EOF(self):
-        return False
-
-
-def _rule_5_fragment(ctx):
-    consts = _tok_consts(ctx)
-    types = sorted({v for k, v in consts.items() if k.startswith('TOK_TYPE_')})
-    subs = sorted({v for k, v in consts.items() if k.startswith('TOK_SUBTYPE_')} | {''})
-    operand, func, subexpr = consts['TOK_TYPE_OPERAND'], consts['TOK_TYPE_FUNCTION'], consts['TOK_TYPE_SUBEXPR']
-    stop, post = consts['TOK_SUBTYPE_STOP'], consts['TOK_TYPE_OP_POST']
-    infix, prefix, noop = consts['TOK_TYPE_OP_IN'], consts['TOK_TYPE_OP_PRE'], consts['TOK_TYPE_NOOP']
-    tables = {}
-    for sign, other in (('-', prefix), ('+', noop)):
-        tm, fn, sw = _minus_plus_switch(ctx, sign)
-        # names of the token variable and the token list
-        tokvar = next(x.value.id for x in ast.walk(sw.test) if isinstance(x, ast.Attribute)
-                      and x.attr == 'tvalue' and isinstance(x.value, ast.Name))
-        lists = {c.func.value.id for c in ast.walk(sw) if isinstance(c, ast.Call)
-                 and isinstance(c.func, ast.Attribute) and c.func.attr in ('BOF', 'previous')
-                 and isinstance(c.func.value, ast.Name)}
-        if len(lists) != 1:
-            raise Unmodelled(f'{sign!r} switch consults {sorted(lists)} for the previous token')
-        listvar = lists.pop()
-        table = {}
-        domain = [('BOF', None)] + [((t, s), (t, s)) for t in types for s in subs]
-        for label, prev in domain:
-            tok = Rec(tvalue=sign, ttype=infix, tsubtype='')
-            prevrec = Rec(tvalue='x', ttype=prev[0], tsubtype=prev[1]) if prev else None
-            env = {tokvar: tok, listvar: _Tokens(prev is None, prevrec)}
-            it = Interp(ctx.a, tm, env, self_class='pkg:tokenizer:ExcelParser', scope_fn=fn)
-            out = it.run([sw])
-            got = tok.get('ttype')
-            if prev is None:
-                want = other
-            else:
-                t, s = prev
-                ends_operand = (t == operand) or (t == func and s == stop) or \
-                    (t == subexpr and s == stop) or (t == post)
-                want = infix if ends_operand else other
-            table[label] = got
-            ctx.expect(got == want, sw, f'switch[{sign!r}, prev={label}]',
-                       f'{sign!r} after {label} becomes {got!r}; it must be {want!r} '
-                       f'(infix exactly when the previous token ends an operand)')
-            if got == infix:
-                ctx.expect(tok.get('tsubtype') == consts['TOK_SUBTYPE_MATH'], sw,
-                           f'switch[{sign!r}, prev={label}] subtype',
-                           'infix +/- is not marked as a math operator')
-            if out.end not in ('continue',):
-                ctx.bad(sw, f'switch[{sign!r}, prev={label}] leaves iteration',
-                        'the switch does not `continue`: later classification steps may re-type the token')
-        tables[sign] = table
-    diff = [k for k in tables['-'] if (tables['-'][k] == infix) != (tables['+'][k] == infix)]
-    ctx.expect(not diff, _minus_plus_switch(ctx, '-')[2], 'twin tables of - and +',
-               f'the switches for - and + disagree on {diff[:4]}')
-    ctx.floor(2 * (len(types) * len(subs) + 1), 'every (ttype, tsubtype) + BOF for both signs')
-    # noop tokens are dropped, prefix tokens are kept
-    tm = ctx.mod('tokenizer')
-    fn = tm.func('ExcelParser.getTokens')
-    drop = [n for n in walk_local(fn) if isinstance(n, ast.Compare)
-            and any(isinstance(x, ast.Attribute) and x.attr == 'TOK_TYPE_NOOP' for x in ast.walk(n))
-            and isinstance(n.ops[0], ast.NotEq)]
-    ctx.expect(bool(drop), fn, 'noop tokens filtered', 'unary plus (noop) tokens are not removed from the stream')
 
 
 def rule_6(ctx):
@@ -645,15 +411,6 @@ def rule_7(ctx):
         ctx.expect(ok, fn, f'SN guard rejects {m!r}',
                    f'{m!r} (a reference/name or a complete number) is taken for a mantissa: ={m}+2 is tokenized as {toks!r}')
     ctx.floor(14, 'mantissa classes + non-members')
-
-
-def _local_consts(ctx, fn, m):
-    env = {}
-    for n in walk_local(fn):
-        if isinstance(n, ast.Assign) and len(n.targets) == 1 and isinstance(n.targets[0], ast.Name) \
-                and isinstance(n.value, ast.Constant) and isinstance(n.value.value, str):
-            env.setdefault(n.targets[0].id, n.value.value)
-    return env
 
 
 def rule_8(ctx):
